@@ -127,6 +127,15 @@ for _p, (_t, _n) in ROUND11.items():
     if _n:
         CHECKS[_p]["note"] = _n
 
+ROUND12 = {
+ "C01": "Round 12: absolute (base-less) memory operands x address type {abs, rel, default} x CodeHolder base {none, 0, low, > 4 GiB} x requested address up to the +-2 GiB reach x forms with and without a trailing immediate; the designated address is recomputed from the bytes.",
+ "C09": "Round 12: request sizes computed from the allocator's geometry (exact fit into the block a pool maps next, +-1 granule) in random and bounded-exhaustive histories, followed by soft reset / shrink + tail allocation / release-all; after every reset formerly live pointers must be unknown and the retained block allocatable.",
+ "C12": "Round 12: forms with read-only segment-register operands are executed; every free GP operand is run at every width validator and assembler accept, with the register preloaded non-zero so that the upper half is judged.",
+ "C14": "Round 12: bursts of settings events (logger on holder/emitter, holder error handler, clear+add diagnostic options) after each attach and inside the call stream; x86-32 REX requests (rex(), REX.B/X/R/W) must be refused by Assembler, isolated Builder/Compiler finalize and the routing driver.",
+}
+for _p, _t in ROUND12.items():
+    CHECKS[_p]["text"] += " " + _t
+
 def main():
     props = [json.loads(l) for l in open(os.path.join(HERE, "properties.jsonl"))]
     hooks = subprocess.run(["git", "-C", "/repo", "log", "--format=%H %s"], capture_output=True, text=True).stdout.splitlines()
